@@ -150,6 +150,15 @@ func (e *Engine) evalTypeExpr(pkg *packages.Package, pos token.Pos, x ast.Expr) 
 func (e *Engine) ifaceMethod(ic *Contract) *types.Func {
 	pkg := e.pkgs[ic.Pkg]
 	if pkg == nil {
+		// a dependency that is not among the loaded roots
+		for _, p := range e.pkgs {
+			if dep := p.Imports[ic.Pkg]; dep != nil && dep.Types != nil {
+				pkg = dep
+				break
+			}
+		}
+	}
+	if pkg == nil {
 		return nil
 	}
 	obj := pkg.Types.Scope().Lookup(ic.Recv)
